@@ -74,6 +74,16 @@ Definition cell_at {A} (s : surface A) (col row : Z) : option A :=
 Definition wf_node {A} (s : surface A) : Prop :=
   0 <= s_w s < 65536 /\ 0 <= s_h s < 65536 /\ zlen (s_buf s) = s_w s * s_h s.
 
+(* the same for every node of a tree *)
+Fixpoint wf_tree {A} (s : surface A) : Prop :=
+  let 'Surf w h buf kids := s in
+  (0 <= w < 65536 /\ 0 <= h < 65536 /\ zlen buf = w * h) /\
+  (fix all (l : list (Z * Z * Z * surface A)) : Prop :=
+     match l with
+     | [] => True
+     | k :: t => (let '(_, _, _, ch) := k in wf_tree ch) /\ all t
+     end) kids.
+
 (* ---------------------------------------------------------------- a sequence of writes *)
 
 Fixpoint write_cells {A} (s : surface A) (ws : list (Z * Z * A)) : option (surface A) :=
